@@ -559,11 +559,14 @@ def main():
                 m = re.search(r'at instruction (\d+)', ex_detail)
                 try:
                     inst = job._machine._program[int(m.group(1))]
-                    from bardolph.vm.vm_codes import OpCode
-                    if inst.op_code is OpCode.PUSH and isinstance(inst.param0, str):
+                    from bardolph.vm.vm_codes import OpCode, Register
+                    # … a variable that was never assigned, or the result of a routine that
+                    # returned nothing (`return` without a value) used as an operand
+                    if inst.op_code is OpCode.PUSH and (isinstance(inst.param0, str) or
+                                                         inst.param0 is Register.RESULT):
                         kind = 'data'
                         ex_detail = ex_detail.replace('pushing None onto eval stack',
-                                                      'read of unassigned variable')
+                                                      'read of an unassigned variable or of "nothing"')
                 except Exception:  # noqa
                     pass
             if kind == 'data':
